@@ -161,6 +161,28 @@ def _(p):
         sv = numpy.asarray(sub.todense() if p["output"] == "sparse" else sub, dtype=float).reshape((len(df), -1))
         if sv.shape[1] != len(idx) or not numpy.allclose(sv, full[:, idx]):
             return f"term-ranges: {p['formula']!r} (clustered): the columns at term_indices[{t!r}] = {idx} are not the columns that term regenerates"
+    # subsets of SEVERAL terms (their request order may interleave the clusters): the subset's own metadata describes the matrix it
+    # builds, and every term's columns are the parent's columns of that term
+    import itertools
+
+    terms = list(spec.term_indices)
+    picks = [c for k in (2, 3) for c in itertools.combinations(terms, k)] + [tuple(t for t in terms if t is not u) for u in terms]
+    for pick in picks:
+        if not pick:
+            continue
+        sub = spec.subset(list(pick))
+        m2 = sub.get_model_matrix(df)
+        for tag, msg in metadata_findings(m2, p["output"], None, clustered=True):
+            if "[factors not in sorted order]" in tag:
+                continue
+            return f"subset-{tag}: {p['formula']!r} (clustered) subset {[str(t) for t in pick]}: {msg}"
+        v2 = numpy.asarray(m2.todense() if p["output"] == "sparse" else m2, dtype=float).reshape((len(df), -1))
+        if p["output"] == "pandas" and list(m2.columns) != list(m2.model_spec.column_names):
+            return f"subset-labels: {p['formula']!r} (clustered) subset {[str(t) for t in pick]}: matrix columns {list(m2.columns)}, its spec reports {list(m2.model_spec.column_names)}"
+        for t, idx2 in m2.model_spec.term_indices.items():
+            idx = spec.term_indices[t]
+            if len(idx2) != len(idx) or not numpy.allclose(v2[:, idx2], full[:, idx]):
+                return f"subset-term-ranges: {p['formula']!r} (clustered) subset {[str(u) for u in pick]}: the columns at term_indices[{str(t)!r}] = {list(idx2)} are not the parent's columns of that term"
     return None
 
 
